@@ -464,6 +464,27 @@ def check_climate(ctx):
                           dict(tags, cls=cls.__name__))
         if not np.allclose(got, got.T, atol=1e-6):
             ctx.violation(where, "not symmetric", key, tags)
+        # the stored statistic stays the statistic whatever is done with the
+        # network afterwards (thresholds, densities, the non-local flag)
+        try:
+            for op in ctx.rng.sample(["nl", "thr", "dens", "nl", "thr"], 3):
+                if op == "nl":
+                    net.set_non_local(not net.non_local())
+                elif op == "thr":
+                    net.set_threshold(ctx.rng.randint(1, 9) / 10.0)
+                else:
+                    net.set_link_density(ctx.rng.randint(1, 9) / 10.0)
+            later = np.asarray(net.similarity_measure(), float)
+            if np.abs(later - stored).max() > 0:
+                ctx.violation(where, "changes after set_non_local / "
+                              "set_threshold / set_link_density (max "
+                              f"deviation {np.abs(later - stored).max():.3g})",
+                              key, dict(tags, cls=cls.__name__,
+                                        history=True))
+        except Exception as e:
+            ctx.violation(where, "raises after the network setters",
+                          dict(key, err=f"{type(e).__name__}: {e}"),
+                          dict(tags, kind="exception"))
     # C histogram mutual information
     where = "MutualInfoClimateNetwork.similarity_measure"
     try:
